@@ -190,6 +190,26 @@ fn has_assignment_in_ternary_middle(e: &Sx) -> bool {
     false
 }
 
+/// `a < b || (T)c > d`: printed without parentheses (valid HLSL), but rssl's parser tries `<b || (T)c>` as a template
+/// argument list followed by a cast-like `(…)` and gives up: again a C04/C09 finding that only removes the text oracle here
+fn has_less_then_greater_with_cast(e: &Sx) -> bool {
+    fn any_op(e: &Sx, pred: &dyn Fn(&Sx) -> bool) -> bool {
+        if let Sx::L(items) = e {
+            if e.head() == "op" && pred(e) {
+                return true;
+            }
+            return items.iter().any(|i| any_op(i, pred));
+        }
+        false
+    }
+    let lt = |e: &Sx| matches!(e.args()[0].atom(), "LessThan" | "LeftShift" | "LeftShiftAssignment" | "LessEqual");
+    let gt = |e: &Sx| {
+        matches!(e.args()[0].atom(), "GreaterThan" | "RightShift" | "GreaterEqual" | "RightShiftAssignment")
+            && e.args()[1..].iter().any(|x| x.head() == "cast")
+    };
+    any_op(e, &lt) && any_op(e, &gt)
+}
+
 /// all-literal operand lists of typed Int32 constants (the side condition `LitOK` of the theorems)
 fn litok_violations(e: &Sx) -> u64 {
     let is_i32 = |x: &Sx| x.head() == "lit" && x.args()[0].atom() == "i32";
@@ -321,6 +341,10 @@ fn run_program(src: &str, only: Option<(&str, &[Vec<V>])>, nvec: usize, rng: &mu
                         hist.add("text-not-reparsable-by-rssl(ternary-middle-assignment)");
                         skip_text = true;
                     }
+                    Err(e) if e == "parse" && p.prog.iter().any(has_less_then_greater_with_cast) => {
+                        hist.add("text-not-reparsable-by-rssl(less-than … cast greater-than)");
+                        skip_text = true;
+                    }
                     Err(e) => fails.push(format!("{}: emitted text unusable: {}", flav, e)),
                     Ok(items) => {
                         if items.iter().any(|i| i.contains_head("unsupported")) {
@@ -369,7 +393,7 @@ fn run_program(src: &str, only: Option<(&str, &[Vec<V>])>, nvec: usize, rng: &mu
         let oracle = if !fails.is_empty() {
             format!("FAIL:{}", fails[0])
         } else if skip_text {
-            "ok(text oracle not available: rssl cannot re-parse `c ? x = e : f`)".to_string()
+            "ok(text oracle not available: rssl cannot re-parse its own output here, see notes)".to_string()
         } else {
             "ok".to_string()
         };
@@ -423,7 +447,7 @@ pub fn run(args: &Args, out: &mut Out) {
         out.stat(&format!("{{\"mode\":\"replay\",\"hist\":{}}}", hist.json()));
         return;
     }
-    let n = args.n.unwrap_or(if args.thorough() { 20000 } else { 300 });
+    let n = args.n.unwrap_or(if args.thorough() { 6000 } else { 300 });
     let nvec = if args.thorough() { 8 } else { 8 };
     let mut rng = Rng::new(args.seed);
     for k in 0..n {
